@@ -103,6 +103,9 @@ func flashList(ms []flashMsg) string {
 func flashMultiset(ms []flashMsg) string {
 	keys := make([]string, 0, len(ms))
 	for _, m := range ms {
+		if m.Old {
+			m.Level = 0 // old input carries no level
+		}
 		keys = append(keys, fmt.Sprintf("%v|%q|%q|%d", m.Old, m.Key, m.Value, m.Level))
 	}
 	sort.Strings(keys)
@@ -260,7 +263,7 @@ func (r *flashRun) level() (uint8, bool) {
 
 func (r *flashRun) genGo(op *flashOp) {
 	s := r.s
-	budget := 1500
+	budget := 1200
 	n := simrt.PickS(s, 1, 2, 3, 0, 5)
 	for i := 0; i < n; i++ {
 		m := flashMsg{Key: r.str(&budget), Value: r.str(&budget)}
@@ -277,7 +280,8 @@ func (r *flashRun) genGo(op *flashOp) {
 		ni := s.Range(0, 3)
 		for i := 0; i < ni; i++ {
 			k := "f" + strconv.Itoa(i) + flashPlain[s.Draw(len(flashPlain)-2)]
-			op.inputs = append(op.inputs, flashMsg{Key: k, Value: r.str(&budget), Old: true})
+			ib := 100
+			op.inputs = append(op.inputs, flashMsg{Key: k, Value: r.str(&ib), Old: true})
 		}
 	}
 	op.route = s.Chance(250)
@@ -670,9 +674,9 @@ func flashClassify(v string) (class int, msgs []flashMsg, why string, armour int
 // ---------------------------------------------------------------------------------------------
 // reference MessagePack writer for crafted cookies
 
-func flashMPStr(b []byte, s string, wide bool) []byte {
+func flashMPStr(b []byte, s string) []byte {
 	switch {
-	case len(s) < 32 && !wide:
+	case len(s) < 32:
 		b = append(b, 0xa0|byte(len(s)))
 	case len(s) < 256:
 		b = append(b, 0xd9, byte(len(s)))
@@ -697,7 +701,7 @@ func flashMPBool(b []byte, v bool) []byte {
 }
 
 // flashMPMsg writes one map; fields is the order / subset (k v l o), extra adds an unknown field.
-func flashMPMsg(b []byte, m flashMsg, fields string, extra []byte, wide bool) []byte {
+func flashMPMsg(b []byte, m flashMsg, fields string, extra []byte) []byte {
 	n := len(fields)
 	if extra != nil {
 		n++
@@ -706,31 +710,31 @@ func flashMPMsg(b []byte, m flashMsg, fields string, extra []byte, wide bool) []
 	for _, f := range fields {
 		switch f {
 		case 'k':
-			b = flashMPStr(b, "key", false)
-			b = flashMPStr(b, m.Key, wide)
+			b = flashMPStr(b, "key")
+			b = flashMPStr(b, m.Key)
 		case 'v':
-			b = flashMPStr(b, "value", false)
-			b = flashMPStr(b, m.Value, wide)
+			b = flashMPStr(b, "value")
+			b = flashMPStr(b, m.Value)
 		case 'l':
-			b = flashMPStr(b, "level", false)
+			b = flashMPStr(b, "level")
 			b = flashMPLevel(b, m.Level)
 		case 'o':
-			b = flashMPStr(b, "isOldInput", false)
+			b = flashMPStr(b, "isOldInput")
 			b = flashMPBool(b, m.Old)
 		}
 	}
 	if extra != nil {
-		b = flashMPStr(b, "note", false)
+		b = flashMPStr(b, "note")
 		b = append(b, extra...)
 	}
 	return b
 }
 
-func flashMPArr(b []byte, n uint32, form int) []byte {
+func flashMPArr(b []byte, n uint32) []byte {
 	switch {
-	case form == 0 && n < 16:
+	case n < 16:
 		return append(b, 0x90|byte(n))
-	case form <= 1 && n < 1<<16:
+	case n < 1<<16:
 		return append(b, 0xdc, byte(n>>8), byte(n))
 	}
 	return append(b, 0xdd, byte(n>>24), byte(n>>16), byte(n>>8), byte(n))
@@ -744,11 +748,17 @@ func (r *flashRun) craftMsgs(lo, hi int) []flashMsg {
 	for i := 0; i < n; i++ {
 		m := flashMsg{Level: flashSafeLevel(s.Draw(222)), Old: s.Chance(400)}
 		nk, nv := s.Range(2, 6), s.Range(2, 9)
+		if s.Chance(200) {
+			nv = s.Range(33, 50) // str8 header whose length byte is no control byte
+		}
 		for j := 0; j < nk; j++ {
 			m.Key += flashPlain[s.Draw(len(flashPlain))]
 		}
 		for j := 0; j < nv; j++ {
 			m.Value += simrt.PickS(s, flashPlain, flashPlain, []string{",", ":", "=", "%", "é", "日"})[s.Draw(6)]
+		}
+		for len(m.Value) == 0x3b || len(m.Value) == 0x7f {
+			m.Value += "a" // the str8 length byte would be ';' or DEL
 		}
 		out = append(out, m)
 	}
@@ -761,13 +771,13 @@ func (r *flashRun) junk(depth int) []byte {
 	case 0:
 		return []byte{0x2a}
 	case 1:
-		return flashMPStr(nil, "junk", s.Chance(300))
+		return flashMPStr(nil, "junk")
 	case 2:
 		return []byte{0xc3}
 	case 3:
 		return []byte{0xcb, 0x40, 0x45, 0x40, 0x40, 0x40, 0x40, 0x40, 0x40} // float64
 	case 4:
-		return []byte{0xc4, 0x03, 'b', 'i', 'n'}
+		return append([]byte{0xc4, 0x21}, bytes.Repeat([]byte("b"), 0x21)...) // bin8
 	case 5:
 		return []byte{0xd5, 0x21, 'e', 'x'} // fixext 2
 	case 6:
@@ -786,7 +796,7 @@ func (r *flashRun) junk(depth int) []byte {
 		} else {
 			b = append(b, 0x80|byte(n))
 			for i := 0; i < n; i++ {
-				b = flashMPStr(b, "f"+strconv.Itoa(i), false)
+				b = flashMPStr(b, "f"+strconv.Itoa(i))
 				b = append(b, r.junk(depth+1)...)
 			}
 		}
@@ -825,7 +835,8 @@ type flashWire struct {
 	found   bool
 	line    string // set-cookie-string
 	value   string
-	problem string
+	problem string // why an RFC 6265 sec. 5 user agent cannot take the value ("" = it can)
+	kind    string // header-injection | control-byte | delimiter | malformed
 }
 
 var flashKnownAttr = map[string]bool{"expires": true, "max-age": true, "domain": true, "path": true, "secure": true, "httponly": true, "samesite": true, "partitioned": true}
@@ -885,16 +896,22 @@ func flashLenient(raw []byte, name, server string) flashWire {
 	}
 	switch {
 	case server != "" && !w.found:
+		w.kind = "malformed"
 		w.problem = "the handler's response carries the cookie but no Set-Cookie line for it arrives"
 	case server != "" && w.line != server:
+		w.kind = "header-injection"
 		w.problem = fmt.Sprintf("CR/LF inside the cookie value split the header: the Set-Cookie line on the wire is %q, the server serialised %q", flashClip(w.line), flashClip(server))
 	case junk != "":
+		w.kind = "header-injection"
 		w.problem = fmt.Sprintf("the header block contains a line that is no header field: %q", flashClip(junk))
 	case cl >= 0 && len(rest) != cl:
+		w.kind = "header-injection"
 		w.problem = fmt.Sprintf("%d bytes follow the header block, Content-Length is %d", len(rest), cl)
 	case ctl >= 0:
+		w.kind = "control-byte"
 		w.problem = fmt.Sprintf("the set-cookie-string contains control byte 0x%02x at offset %d: user agents ignore such a cookie (RFC 6265bis 5.6) and a Cookie header repeating it is rejected by the server's own parser", w.line[ctl], ctl)
 	case attr != "":
+		w.kind = "delimiter"
 		w.problem = fmt.Sprintf("the value contains ';': the user agent cuts it there and sees the rest as attribute %q", flashClip(attr))
 	}
 	return w
@@ -994,7 +1011,7 @@ func flashMain(s *simrt.Sim, info *harness.RunInfo) {
 		if extraCookies {
 			b.Set("aa", "1")
 			if s.Chance(500) {
-				b.Set("zz", "fiber")
+				b.Set("zz", simrt.PickS(s, "1", "x"+flashName))
 			}
 		}
 		r.browsers = append(r.browsers, b)
@@ -1133,18 +1150,18 @@ func (r *flashRun) redirect(bi int) {
 	case wire.found && !stored:
 		off, bad := -1, byte(0)
 		for i := 0; i < len(wire.value); i++ {
-			if c := wire.value[i]; c < 0x21 || c >= 0x7f || c == '"' || c == ',' || c == ';' || c == '\\' {
+			if c := wire.value[i]; c < 0x20 || c >= 0x7f || c == '"' || c == ';' || c == '\\' {
 				off, bad = i, c
 				break
 			}
 		}
-		r.fail("C12.strict-client", "op%d b%d: redirect with %s: net/http drops the Set-Cookie (value of %d bytes, byte 0x%02x at offset %d is no RFC 6265 cookie-octet): a strict client never presents the messages", op.id, bi, flashList(op.with), len(wire.value), bad, off)
-	case stored && (wire.problem != "" || sv != wire.value):
+		r.fail("C12.strict-client", "op%d b%d: redirect with %s: net/http drops the Set-Cookie (value of %d bytes; byte 0x%02x at offset %d is not a legal cookie value byte): a strict client never presents the messages", op.id, bi, flashList(op.with), len(wire.value), bad, off)
+	case stored && (wire.problem != "" || (sv != wire.value && `"`+sv+`"` != wire.value)):
 		r.fail("C12.strict-client", "op%d b%d: redirect with %s: net/http stores %d bytes for a cookie value of %d bytes on the wire (%s)", op.id, bi, flashList(op.with), len(sv), len(wire.value), wire.problem)
 	default:
 		strictOK = true
 	}
-	st.pending, st.hostile, st.tier = nil, nil, ""
+	st.pending, st.hostile, st.tier, st.after = nil, nil, "", false
 	outcome := "no-cookie"
 	switch {
 	case !wire.found && !stored:
@@ -1156,7 +1173,11 @@ func (r *flashRun) redirect(bi int) {
 		outcome = "strict"
 	case wire.problem != "":
 		// tier 2 cannot take it either
-		r.fail("C12.lenient-client", "op%d b%d: redirect with %s %s: %s", op.id, bi, flashList(op.with), flashList(op.inputs), wire.problem)
+		id := "C12.lenient-client-" + wire.kind
+		if wire.kind == "header-injection" {
+			id = "C12.header-injection"
+		}
+		r.fail(id, "op%d b%d: redirect with %s %s: %s", op.id, bi, flashList(op.with), flashList(op.inputs), wire.problem)
 		delete(b.Cookies, flashName)
 		outcome = "undeliverable"
 		s.Count("probe_cookie_unusable_for_any_client")
@@ -1204,7 +1225,10 @@ func (r *flashRun) request(bi int, kind string, depth int) {
 	b, st := r.browsers[bi], r.st[bi]
 	op := &flashOp{id: len(r.ops), browser: bi, kind: kind, read: true}
 	if kind == "plain" && s.Chance(400) {
-		op.read = false
+		op.read = false // a handler that does not look at the messages
+	}
+	if st.hostile != nil && st.hostile.bomb > 0 && s.Chance(400) {
+		op.read = false // the cost is then the decoder's alone
 	}
 	r.ops = append(r.ops, op)
 	cookie, has := b.Get(flashName)
@@ -1290,7 +1314,9 @@ func (r *flashRun) request(bi int, kind string, depth int) {
 	case pending != nil:
 		outcome = r.checkDelivery(op, pending, st.tier, resp, what, cookie)
 		// (once) the response must have expired the cookie in the client's store
-		if _, still := b.Get(flashName); still {
+		if outcome == "rejected" {
+			delete(b.Cookies, flashName) // the exchange failed before: nothing to say about expiry
+		} else if _, still := b.Get(flashName); still {
 			r.fail("C12.once-cookie-not-expired", "op%d b%d: the response to %s leaves the cookie in the client's store (Set-Cookie lines: %q): a conforming client presents the messages of op%d again", op.id, bi, what, resp.Header["Set-Cookie"], pending.id)
 			delete(b.Cookies, flashName) // re-synchronise: act as if it had been expired
 		}
@@ -1303,7 +1329,7 @@ func (r *flashRun) request(bi int, kind string, depth int) {
 		r.noneExpected(op, resp, what)
 		st.after = false
 	}
-	if has {
+	if has && kind != "nest" {
 		bound := uint64(64<<10 + 64*len(cookie))
 		if os.Getenv("FLASH_DEBUG_ALLOC") != "" {
 			fmt.Fprintf(os.Stderr, "alloc op%d cookie=%d delta=%d bound=%d\n", op.id, len(cookie), delta, bound)
@@ -1385,6 +1411,9 @@ func (r *flashRun) checkHostile(op *flashOp, h *flashHostile, resp *harness.Resp
 	}
 	if op.cookie != cookie {
 		// the header syntax changed the bytes: classify what the application received
+		if os.Getenv("FLASH_DEBUG_ALLOC") != "" {
+			fmt.Fprintf(os.Stderr, "altered sent=%q got=%q\n", cookie, op.cookie)
+		}
 		class, dec, why, _, plain = flashClassify(op.cookie)
 		cookie = op.cookie
 		s.Count("probe_hostile_value_altered_in_transport")
@@ -1465,7 +1494,7 @@ func (r *flashRun) corrupt(bi int) {
 		k := s.Range(1, 8)
 		raw = append([]byte(nil), raw...)
 		if s.Chance(400) {
-			raw = append(raw, flashMPMsg(nil, flashMsg{Key: "zz", Value: "appended", Level: 0x41}, "kvlo", nil, false)...)
+			raw = append(raw, flashMPMsg(nil, flashMsg{Key: "zz", Value: "appended", Level: 0x41}, "kvlo", nil)...)
 		} else {
 			for i := 0; i < k; i++ {
 				raw = append(raw, byte(0x20+s.Draw(0xe0)))
@@ -1499,40 +1528,51 @@ func (r *flashRun) craft(bi int) {
 	case 0: // well-formed list, possibly in another field order / wider headers
 		ms := r.craftMsgs(1, 3)
 		order := simrt.PickS(s, "kvlo", "olvk", "vklo", "lokv")
-		wide := s.Chance(300)
-		raw = flashMPArr(nil, uint32(len(ms)), s.Draw(2))
+		raw = flashMPArr(nil, uint32(len(ms)))
 		for _, m := range ms {
-			raw = flashMPMsg(raw, m, order, nil, wide)
+			raw = flashMPMsg(raw, m, order, nil)
 		}
 		h.desc = fmt.Sprintf("a crafted well-formed list %s (field order %s)", flashList(ms), order)
 		s.Count("fault_crafted_wellformed")
 	case 1: // header announces more than present
 		ms := r.craftMsgs(0, 2)
-		extra := simrt.PickS(s, 1, 2, 5, 12, 40, 700)
-		n := uint32(len(ms) + extra)
-		raw = flashMPArr(nil, n, 0)
+		// counts whose header bytes a Cookie header can carry
+		n := uint32(simrt.PickS(s, len(ms)+1, len(ms)+2, 7, 15, 0x2020, 0x7e21))
+		if n > 15 && r.bombStop {
+			n = 15
+		}
+		if n > 15 {
+			h.bomb = int(n)
+		}
+		raw = flashMPArr(nil, n)
 		for _, m := range ms {
-			raw = flashMPMsg(raw, m, "kvlo", nil, false)
+			raw = flashMPMsg(raw, m, "kvlo", nil)
 		}
 		if s.Chance(300) { // and the next map is cut
-			part := flashMPMsg(nil, flashMsg{Key: "cut", Value: "cutvalue", Level: 0x42}, "kvlo", nil, false)
+			part := flashMPMsg(nil, flashMsg{Key: "cut", Value: "cutvalue", Level: 0x42}, "kvlo", nil)
 			raw = append(raw, part[:s.Range(1, len(part)-1)]...)
 		}
 		h.desc = fmt.Sprintf("a crafted array header announcing %d elements with %d complete ones %s", n, len(ms), flashList(ms))
 		s.Count("fault_crafted_count_exceeds_elements")
 	case 2: // the announced count is the attack: escalate only while the allocation bound holds
-		ladder := []uint32{0xffff, 0x09090909, 0xffffffff}
+		ladder := []uint32{0xffff, 0x20202020, 0xffffffff}
 		top := s.Draw(len(ladder))
 		ms := r.craftMsgs(0, 1)
 		for lvl := 0; lvl <= top && !r.bombStop && !r.dead; lvl++ {
-			raw = flashMPArr(nil, ladder[lvl], 1)
+			raw = flashMPArr(nil, ladder[lvl])
 			for _, m := range ms {
-				raw = flashMPMsg(raw, m, "kvlo", nil, false)
+				raw = flashMPMsg(raw, m, "kvlo", nil)
 			}
-			h = &flashHostile{bomb: int(ladder[lvl]), desc: fmt.Sprintf("a crafted array header announcing %d elements with %d present", ladder[lvl], len(ms))}
+			if len(ms) == 0 {
+				raw = append(raw, 0x80) // one empty map, so that the header does not end in blanks
+			}
+			h = &flashHostile{bomb: int(ladder[lvl]), desc: fmt.Sprintf("a crafted array header announcing %d elements with %d complete ones", ladder[lvl], len(ms))}
 			s.Count("fault_crafted_huge_count")
 			if lvl < top {
 				// all but the last are sent right here, the last by the caller
+				if r.armour <= 0 {
+					raw = flashTransportable(raw)
+				}
 				h.value = flashArmours[max(r.armour, 0)].enc(raw)
 				b.Set(flashName, h.value)
 				st.pending, st.hostile = nil, h
@@ -1544,34 +1584,34 @@ func (r *flashRun) craft(bi int) {
 		}
 	case 3: // maps with missing fields
 		ms := r.craftMsgs(1, 3)
-		raw = flashMPArr(nil, uint32(len(ms)), 0)
+		raw = flashMPArr(nil, uint32(len(ms)))
 		var sub []string
 		for _, m := range ms {
 			f := simrt.PickS(s, "k", "kv", "v", "kl", "ko", "", "vlo", "kvl")
 			sub = append(sub, f)
-			raw = flashMPMsg(raw, m, f, nil, false)
+			raw = flashMPMsg(raw, m, f, nil)
 		}
 		h.desc = fmt.Sprintf("a crafted list whose maps carry only the fields %q of %s", sub, flashList(ms))
 		s.Count("fault_crafted_missing_fields")
 	case 4: // unknown fields with nested junk
 		ms := r.craftMsgs(1, 2)
-		raw = flashMPArr(nil, uint32(len(ms)), 0)
+		raw = flashMPArr(nil, uint32(len(ms)))
 		for _, m := range ms {
-			raw = flashMPMsg(raw, m, simrt.PickS(s, "kvlo", "kv", "lo"), r.junk(0), false)
+			raw = flashMPMsg(raw, m, simrt.PickS(s, "kvlo", "kv", "lo"), r.junk(0))
 		}
 		h.desc = fmt.Sprintf("a crafted list with unknown fields holding nested objects, messages %s", flashList(ms))
 		s.Count("fault_crafted_unknown_fields")
 	case 5: // mistyped known field
 		ms := r.craftMsgs(1, 2)
-		raw = flashMPArr(nil, uint32(len(ms)+1), 0)
+		raw = flashMPArr(nil, uint32(len(ms)+1))
 		for _, m := range ms {
-			raw = flashMPMsg(raw, m, "kvlo", nil, false)
+			raw = flashMPMsg(raw, m, "kvlo", nil)
 		}
 		bad := simrt.PickS(s, "key", "value", "level", "isOldInput")
 		raw = append(raw, 0x82)
-		raw = flashMPStr(raw, "key", false)
-		raw = flashMPStr(raw, "typed", false)
-		raw = flashMPStr(raw, bad, false)
+		raw = flashMPStr(raw, "key")
+		raw = flashMPStr(raw, "typed")
+		raw = flashMPStr(raw, bad)
 		switch bad {
 		case "key", "value":
 			raw = append(raw, simrt.PickS(s, []byte{0x2a}, []byte{0xc3}, []byte{0x91, 0x2a}, []byte{0x80})...)
